@@ -264,7 +264,6 @@ func aggregatorContextRule(c *Ctx, id string, runAsync *ssa.Function) {
 	}
 }
 
-
 // allFinished describes the one place of core/engine where the awaiter concludes that every instance run was awaited:
 // the close(runRes) (the assertion that nothing more can arrive) and what follows it. Rules refer to it by this effect,
 // not by the name of the function it happens to live in.
@@ -345,7 +344,6 @@ func (a *allFinished) countAfter(pred func(ssa.Instruction) bool) Interval {
 		return 0, 0
 	}}.Count()
 }
-
 
 // templateCacheRule: a cache of parsed templates must be keyed by something that determines the template text. The rule
 // accepts the exact form: in the function that parses (text/template Parse(x)) and stores the result in a sync.Map, the
